@@ -262,6 +262,11 @@ class Check:
         if sum(1 for f in self.breaks if f.signature == signature) < 3:
             self.breaks.append(Failure(signature, kind, what, replay))
 
+    def known_replays(self) -> list[dict]:
+        """replay inputs of the listed open findings of this property: re-run first in every run, so that each listed finding is
+        either re-confirmed (KNOWN-FINDING line) or noted as no longer reproducible"""
+        return [k for k in load_known() if k.get('property') == self.prop and k.get('status') == 'open' and k.get('replay')]
+
     # -- Lean side -------------------------------------------------------------------------------------------------
     def prove(self, modules: list[str], extra_targets: list[str] | None = None) -> bool:
         """build the property's theorem modules and audit every theorem in them; returns True when all clean"""
@@ -321,7 +326,7 @@ class Check:
             if hit is not None:
                 if f.signature not in seen_sigs:
                     seen_sigs.append(f.signature)
-                    lines.append(f'KNOWN-FINDING: property={self.prop} {f.signature}: {hit.get("what", f.what)}')
+                    lines.append(f'KNOWN-FINDING: property={self.prop} {f.signature}: {str(hit.get("what", f.what))[:200]}')
             else:
                 unlisted.append(f)
         self.known_seen = seen_sigs
